@@ -263,36 +263,54 @@ def stage_ninja(rep, rng, names):
 
 
 def stage_system_names(rep, rng, thorough):
-    """Real configure + make on projects whose source / directory / output names carry special characters:
-    the object is created at exactly that path, a second build is a no-op, touching the source rebuilds, clean removes."""
+    """Real configure + make on projects whose source / directory / output names carry special characters, with the
+    special character in the file name and in a directory component at depth 1 AND at depth 2 (d?r/ma?in.c and
+    d?r/e?f/ma?in.c in one target): every object is created at exactly that path, nothing else appears in the build
+    directory (no stray directories from a name split into words), a second build is a no-op. The blank (the most common
+    special character), # and $ are part of every run; the other characters are sampled in the quick tier."""
     from . import project
     bad = 0
-    specials = [' ', '#', '$', '&', '(', ')', ',', '@', '!', '+', '~', '{', '}', '=', '"', '^', ':', ';']
-    picks = specials if thorough else rng.sample(specials, 5) + [',']
+    always = [' ', '#', '$', ',']
+    others = ['&', '(', ')', '@', '!', '+', '~', '{', '}', '=', '"', '^', ':', ';']
+    picks = always + (others if thorough else rng.sample(others, 3))
     for c in picks:
         stem = 'ma' + c + 'in'
+        d1, d2 = 'd' + c + 'r', 'e' + c + 'f'
+        srcs = [d1 + '/' + stem + '.c', d1 + '/' + d2 + '/' + stem + '.c']
         with project.Scratch('c04s') as s:
-            project.write_tree(s.src, {'build.bfg': "project('p')\nexecutable('prog', files=[%r])\n" % ('d' + c + 'r/' + stem + '.c'),
-                                       'd' + c + 'r/' + stem + '.c': 'int main(void){return 0;}\n'})
+            tree = {'build.bfg': "project('p')\nexecutable('prog', files=%r)\n" % (srcs,)}
+            tree[srcs[0]] = 'int main(void){return 0;}\n'
+            tree[srcs[1]] = 'int f(void){return 0;}\n'
+            project.write_tree(s.src, tree)
             rc, out = project.configure(s.src, s.build, 'make')
             if rc != 0:
                 rep.count('system:configure_rejects')
                 continue
+            before = set(project.snapshot(s.build))
             rcm, recs, mout = project.make(s.build, ['all'], stub_tools=True)
-            obj = os.path.join(s.build, 'prog.int', 'd' + c + 'r', stem + '.o')
-            ok = rcm == 0 and os.path.exists(obj) and any(r['argv'] and ('prog.int/d' + c + 'r/' + stem + '.o') in r['argv'] and '-o' in r['argv'] and r['argv'][-1] == 'prog' for r in recs)
+            objs = ['prog.int/' + x[:-2] + '.o' for x in srcs]
+            dirs = ['prog.int', 'prog.int/' + d1, 'prog.int/' + d1 + '/' + d2]
+            allowed = set(['prog'] + dirs + [d + '/.dir' for d in dirs] + objs + [o + '.d' for o in objs])
+            after = set(project.snapshot(s.build))
+            stray = sorted(x for x in after - before if x not in allowed and not x.startswith('.'))
+            missing = [o for o in objs if not os.path.exists(os.path.join(s.build, o))]
+            linked = any(r['argv'] and all(o in r['argv'] for o in objs) and '-o' in r['argv'] and r['argv'][-1] == 'prog' for r in recs)
+            ok = rcm == 0 and not missing and not stray and linked
             rcm2, recs2, _ = project.make(s.build, ['all'], stub_tools=True) if ok else (1, [], '')
             ok = ok and rcm2 == 0 and not recs2
             rep.case('sys:' + c, True)
-            # in scope only when an accepted escaping exists for both the directory and the file name
-            if not ok and reference_ok('d' + c + 'r')[0] and reference_ok(stem + '.o')[0]:
+            rep.count('system:char %r' % c)
+            # in scope only when an accepted escaping exists for the directory and the file name
+            if not ok and reference_ok(d1)[0] and reference_ok(stem + '.o')[0]:
                 cls = list(classify(stem, 'make'))
                 if c == ',':
                     cls.append('make-call-comma')
                 if c in '()':
                     cls.append('make-call-paren')
-                if rep.fail('Make: project with source %r does not build / rebuilds: %s' % ('d' + c + 'r/' + stem + '.c', mout[-200:]),
-                            {'char': c, 'make_output': mout[-800:], 'object_exists': os.path.exists(obj)}, classes=tuple(cls)):
+                if rep.fail('Make: project with sources %r does not build exactly its outputs (missing %r, stray %r, linked %r): %s'
+                            % (srcs, missing, stray, linked, mout[-200:]),
+                            {'char': c, 'sources': srcs, 'make_output': mout[-800:], 'missing_objects': missing, 'stray_entries': stray,
+                             'link_step_has_all_objects': linked}, classes=tuple(cls)):
                     bad += 1
     rep.stage('system names', chars=len(picks), failures=bad)
     return bad
